@@ -18,6 +18,7 @@ import warnings
 
 import numpy as np
 
+from . import c10_models as MODELS
 from . import c10_ref as R
 
 UNIT_TIMEOUT = 1500.0
@@ -36,7 +37,6 @@ MULTI = dict(S=[[('Sz', 'S'), ('Sz', 'S'), ('Sz', 'S')], [('Sp', 'S'), ('Sz', 'S
              FB=[[('Cd', 'F'), ('N', 'B'), ('C', 'F')], [('Bd', 'B'), ('N', 'F'), ('B', 'B')]],
              FS1=[[('Cd', 'F0'), ('Sz', 'S1'), ('C', 'F0')], [('Sp', 'S1'), ('N', 'F0'), ('Sm', 'S1')], [('Cd', 'F0'), ('Sx', 'S1'), ('Cd', 'F0')]])
 STRING = dict(S='Sigmaz', S0='Sigmaz', B='N')  # explicit operator strings for the *_term generators
-PLAIN = dict(Ls=None, bc_MPS='finite', order='default', remove=None)
 
 
 def lattices(tier):
@@ -47,7 +47,7 @@ def lattices(tier):
 
     def add(name, Ls, bc_MPS, bc, order='default', remove=None, kinds=None):
         if kinds is None:  # quick: two of the four kinds per lattice, in rotation
-            kinds = one if R.N_U[name] == 1 else two
+            kinds = one if R.N_U[name] == 1 else (two if bc_MPS == 'finite' else ['S', 'F', 'FB', 'B'])  # (dimension)
             kinds = [kinds[(len(out) + j) % 4] for j in ((0, 2) if len(out) % 2 else (1, 3))] if q else kinds
         out.append((dict(name=name, Ls=Ls, bc_MPS=bc_MPS, bc=bc, order=order, remove=remove), kinds))
 
@@ -74,10 +74,9 @@ def lattices(tier):
     add('Square', [2, 2], 'finite', ['open', 'open'], remove=[[1, 0, 0]], kinds=['F', 'S'])
     if not q:
         add('Square', [3, 3], 'finite', ['open', 'periodic'], kinds=['F'])
-        add('Square', [2, 3], 'infinite', ['periodic', 'periodic'], kinds=['F', 'S'])
         add('Triangular', [2, 2], 'finite', ['open', 'periodic'], kinds=['F', 'S'])
         add('Triangular', [2, 2], 'infinite', ['periodic', 'open'], kinds=['F', 'S0'])
-        add('Honeycomb', [2, 2], 'finite', ['open', 'periodic'], kinds=['F', 'FS1'])
+        add('Honeycomb', [2, 2], 'finite', ['open', 'periodic'], kinds=['F', 'FB'])
         add('Honeycomb', [1, 2], 'infinite', ['periodic', 'open'], 'snake', kinds=['F', 'FB'])
         add('Ladder', [2], 'infinite', ['periodic'], remove=[[0, 1]], kinds=['F', 'S'])
     return out
@@ -112,6 +111,8 @@ def generator_calls(spec, kind, group, tier, jit):
                         yield ['coupling', s, u1, op1, u2, op2, list(dx), hc], bool(herm or hc)
     elif group == 'multi':
         offs = [[d] for d in ((0, 1, -2) if q else (0, 1, -1, 2))] if dim == 1 else [[0, 0], [1, 0], [0, 1], [1, 1], [-1, 1]][:3 if q else 5]
+        if finite and spec['bc'][0] == 'periodic':  # (a translation by the full length is no translation)
+            offs = [o for o in offs if abs(o[0]) < Ls[0]]
         k = 0
         for ops in MULTI[kind]:
             us = [[u for u in range(nu) if ty[u] == t] for _, t in ops]
@@ -224,7 +225,7 @@ def cases(spec, kind, group, tier, seed):
     """All cases of a unit: single calls with and without explicit_plus_hc, or pairs of generators."""
     jit = 0.001 * (seed % 89)
     if group != 'pairs':
-        every = 4 if tier == 'quick' else 2  # the transformations of the MPO / bond terms are checked on every 4th (2nd) case
+        every = 4 if tier == 'quick' or group == 'multi' else 2  # the conversions / transformed models are checked on every 4th (2nd) case
         for k, (call, herm) in enumerate(generator_calls(spec, kind, group, tier, jit)):
             yield dict(lat=spec, kind=kind, calls=[call], explicit=False, heavy=k % every == 0)
             if herm and (k % 2 == 0 or tier != 'quick'):
@@ -235,7 +236,7 @@ def cases(spec, kind, group, tier, seed):
             cs = [c for c, herm in generator_calls(spec, kind, g, tier, jit) if herm]
             reps += cs[-1:] if g != 'coupling' else [cs[len(cs) // 2], cs[-1]]
         for k, (a, b) in enumerate(itertools.combinations(reps, 2)):
-            yield dict(lat=spec, kind=kind, calls=[a, b], explicit=bool(k % 2), heavy=True)
+            yield dict(lat=spec, kind=kind, calls=[a, b], explicit=bool(k % 2), heavy=True, sort_mpo_legs=k % 3 == 0)
         yield dict(lat=spec, kind=kind, calls=reps, explicit=False, heavy=True)
         yield dict(lat=spec, kind=kind, calls=reps, explicit=True, heavy=True)
 
@@ -243,12 +244,12 @@ def cases(spec, kind, group, tier, seed):
 def units(tier, seed, label):
     us = [('grid', spec, kind, group, tier, seed) for spec, kinds in lattices(tier) for kind in kinds for group in GROUPS + ['pairs']
           if next(cases(spec, kind, group, tier, seed), None) is not None]
-    return us
+    return us + [('model', cls, tier, seed) for cls, _ in MODELS.cases(tier, seed)]
 
 
 # ------------------------------------------------------------------------------------------ one case
 
-def grid_model(lat, calls, explicit, nn, sort_mpo_legs=False):
+def grid_model(lat, calls, explicit, nn, **options):
     from tenpy.models.model import CouplingMPOModel, NearestNeighborModel
 
     class GridModel(CouplingMPOModel):
@@ -259,7 +260,7 @@ def grid_model(lat, calls, explicit, nn, sort_mpo_legs=False):
     class GridNNModel(GridModel, NearestNeighborModel):
         pass
 
-    return (GridNNModel if nn else GridModel)(dict(lattice=lat, calls=calls, explicit_plus_hc=explicit, sort_mpo_legs=sort_mpo_legs))
+    return (GridNNModel if nn else GridModel)(dict(options, lattice=lat, calls=calls, explicit_plus_hc=explicit))
 
 
 OP_BASIS = dict(S=['Id', 'Sz', 'Sp', 'Sm'], S0=['Id', 'Sx', 'Sy', 'Sz'])  # orthogonal operator bases for MPO.to_TermList
@@ -282,6 +283,13 @@ def representations(M, n, first=0, termlist=True, heavy=True, op_basis=None):
     def plus_hc(H):
         return H + H.conj().T if explicit else H
 
+    def bonds(H_bond, bsites=sites, nb=n, ends=None):
+        """(marked as) sum of bond terms: for an infinite system defined up to single-site operators at the ends."""
+        assert len(H_bond) == len(bsites) and (H_bond[0] is None or not finite)
+        S = R.bonds_dense(H_bond, bsites, first, nb)
+        gw = ends or win
+        return dict(bonds=S if ends is None else R.unfold(S, ends), ends=(gw[0].dim, gw[-1].dim))
+
     if isinstance(M, CouplingModel) and termlist:
         def term_lists():
             ot, ct = M.all_onsite_terms(), M.all_coupling_terms()
@@ -290,7 +298,7 @@ def representations(M, n, first=0, termlist=True, heavy=True, op_basis=None):
         reps['to_TermList'] = term_lists
     reps['H_MPO'] = lambda: R.mpo_dense(M.H_MPO, first, n)
     if nn:
-        reps['H_bond'] = lambda: R.bonds_dense(M.H_bond, sites, first, n, finite)
+        reps['H_bond'] = lambda: bonds(M.H_bond)
     if finite and isinstance(M, CouplingModel):
         reps['get_numpy_Hamiltonian'] = lambda: ED.get_numpy_Hamiltonian(M, undo_sort_charge=False)
         reps['get_scipy_sparse_Hamiltonian(undo_sort_charge)'] = lambda: R.sort_basis(ED.get_scipy_sparse_Hamiltonian(M).toarray(), win)
@@ -300,10 +308,13 @@ def representations(M, n, first=0, termlist=True, heavy=True, op_basis=None):
         reps['extract_segment'] = lambda: R.mpo_dense(M.extract_segment(first, first + n - 1).H_MPO, 0, n)
         return reps
     if nn:
-        reps['calc_H_MPO_from_bond'] = lambda: R.mpo_dense(NearestNeighborModel(lat, M.H_bond).calc_H_MPO_from_bond(), 0, n)
-        reps['calc_H_bond_from_MPO'] = lambda: R.bonds_dense(M.calc_H_bond_from_MPO(), sites, 0, n, finite)
-        reps['MPOModel.calc_H_bond_from_MPO'] = lambda: R.bonds_dense(MPOModel(lat, M.H_MPO).calc_H_bond_from_MPO(), sites, 0, n, finite)
-        reps['NearestNeighborModel.from_MPOModel'] = lambda: R.bonds_dense(NearestNeighborModel.from_MPOModel(M).H_bond, sites, 0, n, finite)
+        # (the MPO built from bond terms has the single-site parts of every bond as on-site terms: on a window of
+        # an infinite system it differs by those of the two bonds crossing the boundaries)
+        reps['calc_H_MPO_from_bond'] = lambda: dict(bonds=R.mpo_dense(NearestNeighborModel(lat, M.H_bond).calc_H_MPO_from_bond(), 0, n),
+                                                    ends=(win[0].dim, win[-1].dim))
+        reps['calc_H_bond_from_MPO'] = lambda: bonds(M.calc_H_bond_from_MPO())
+        reps['MPOModel.calc_H_bond_from_MPO'] = lambda: bonds(MPOModel(lat, M.H_MPO).calc_H_bond_from_MPO())
+        reps['NearestNeighborModel.from_MPOModel'] = lambda: bonds(NearestNeighborModel.from_MPOModel(M).H_bond)
 
     def sorted_legs():
         H = copy.deepcopy(M.H_MPO)  # (MPO.copy() is shallow and sort_legcharges changes the IdL/IdR lists in place)
@@ -341,10 +352,10 @@ def representations(M, n, first=0, termlist=True, heavy=True, op_basis=None):
         gw = [gs[i % len(gs)] for i in range(g_n)]
         res = [R.unfold(R.mpo_dense(G.H_MPO, 0, g_n), gw)]
         if nn and len(gs) > 1:
-            res.append(R.unfold(R.bonds_dense(G.H_bond, gs, 0, g_n, finite), gw))
+            res.append(bonds(G.H_bond, gs, g_n, gw))
         return res
     for k in (2, 3):
-        if N > k or (not finite and N >= 2):
+        if N > k or (not finite and N >= k):
             reps['group_sites(%d)' % k] = lambda k=k: grouped(k)
     if not finite:
         def enlarged():
@@ -354,11 +365,11 @@ def representations(M, n, first=0, termlist=True, heavy=True, op_basis=None):
             MPOModel.test_sanity(E)
             E.H_MPO.test_sanity()
             assert E.lat.N_sites == 2 * N == E.H_MPO.L
-            return [R.mpo_dense(E.H_MPO, 0, n)] + ([R.bonds_dense(E.H_bond, E.lat.mps_sites(), 0, n, False)] if nn else [])
+            return [R.mpo_dense(E.H_MPO, 0, n)] + ([bonds(E.H_bond, E.lat.mps_sites())] if nn else [])
         reps['enlarge_mps_unit_cell'] = enlarged
         reps['ExactDiag.from_infinite_model'] = lambda: _ed_segment(M, 0, n)
 
-    def segment():
+    def segment():  # (finite: the "segment" of all sites)
         seg = M.extract_segment(0, n - 1) if finite else M.extract_segment(enlarge=n // N)
         MPOModel.test_sanity(seg)
         seg.H_MPO.test_sanity()
@@ -368,7 +379,8 @@ def representations(M, n, first=0, termlist=True, heavy=True, op_basis=None):
                 h0 = M.H_bond[k % N]
                 assert (h is None) == (h0 is None) and (h is None or np.abs(h.to_ndarray() - h0.to_ndarray()).max() < TOL)
         return R.mpo_dense(seg.H_MPO, 0, n)
-    reps['extract_segment'] = segment
+    if not (finite and lat.N_sites % lat.N_rings):  # (irregular lattice without a number of sites per ring)
+        reps['extract_segment'] = segment
     return reps
 
 
@@ -383,6 +395,32 @@ def _full_H(ed):
     """full_H has the legs '(p0.p1....)', '(p0*.p1*....)': LegPipes of the physical legs."""
     perm = R.pipe_perm(ed.full_H.get_leg(0))
     return ed.full_H.to_ndarray()[np.ix_(perm, perm)]
+
+
+def compare(reps, H, finite, bad, info, const, where=''):
+    """Evaluate the representations and compare with H (None: with the first representation); returns H."""
+    scale = None
+    for name, f in reps.items():
+        try:
+            with warnings.catch_warnings():
+                warnings.simplefilter('ignore')
+                res = f()
+        except Exception as e:  # noqa: BLE001
+            bad(name, 'exception:' + type(e).__name__, '%s\n%s' % (e, traceback.format_exc()[-1200:]))
+            continue
+        info['reps'].append(name)
+        if H is None:  # (predefined models: the first representation is the reference)
+            H = res
+        scale = scale or max(1.0, np.abs(H).max())
+        for k, Hr in enumerate(res if isinstance(res, list) else [res]):
+            if isinstance(Hr, dict) and not finite:
+                err, const[name, where] = R.boundary_residual(Hr['bonds'] - H, *Hr['ends']) if Hr['bonds'].shape == H.shape else (np.inf, 0)
+            else:
+                Hr = Hr['bonds'] if isinstance(Hr, dict) else Hr
+                err = np.abs(Hr - H).max() if Hr.shape == H.shape else np.inf
+            if not err < TOL * scale:
+                bad(name + ('' if not k else '[H_bond]'), 'mismatch' + where, 'differs from the reference by %.3g (|H|max=%.3g)' % (err, scale))
+    return H
 
 
 def check_case(case):
@@ -403,7 +441,7 @@ def check_case(case):
     if ref.max_range == 0 and not info['nontrivial']:
         info['skipped'] = 'no term'
         return [], info
-    nn = ref.max_range <= 1 and not ref.exp and N > 1
+    nn = ref.name_range <= 1 and not ref.exp and N > 1
     tags = '+'.join(['infinite'] * (not finite) + ['explicit_plus_hc'] * case['explicit'] + ['jw-string'] * ref.jw_between
                     + ['exp'] * ref.exp + ['op_string'] * ref.explicit_string) or 'plain'
     viol = []
@@ -413,9 +451,9 @@ def check_case(case):
         viol.append(('%s:%s:%s' % (rep, mode, tags), '%s: %s; case=%r' % (rep, what, case)))
 
     try:
-        M = grid_model(lat, calls, case['explicit'], nn)
+        M = grid_model(lat, calls, case['explicit'], nn, **({'sort_mpo_legs': True} if case.get('sort_mpo_legs') else {}))
     except Exception as e:  # noqa: BLE001
-        bad('model', 'exception:' + type(e).__name__, '%s\n%s' % (e, traceback.format_exc()[-1200:]))
+        bad('model:' + '+'.join(sorted({c[0] for c in calls})), 'exception:' + type(e).__name__, '%s\n%s' % (e, traceback.format_exc()[-1200:]))
         return viol, info
     heavy = case.get('heavy', True)
     op_basis = None if ref.exp and not finite else OP_BASIS.get(case['kind'])  # (infinite range: the list is truncated)
@@ -435,42 +473,97 @@ def check_case(case):
             bad('H_MPO.is_hermitian', 'wrong', 'is_hermitian()=%s, the sum of terms is %shermitian' % (M.H_MPO.is_hermitian(), '' if herm else 'not '))
     except Exception as e:  # noqa: BLE001
         bad('H_MPO.is_hermitian', 'exception:' + type(e).__name__, str(e))
+    const = {}
     for first in [0] if finite or case['lat']['remove'] or not heavy else [0, lat.N_sites_per_ring]:
         if first:
             ref = R.Ref(lat, first, n)
             for c in calls:
                 ref.add(c)
             H = ref.dense()
-        for name, f in representations(M, n, first, not ref.explicit_string, heavy, op_basis).items():
-            try:
-                with warnings.catch_warnings():
-                    warnings.simplefilter('ignore')
-                    res = f()
-            except Exception as e:  # noqa: BLE001
-                bad(name, 'exception:' + type(e).__name__, '%s\n%s' % (e, traceback.format_exc()[-1200:]))
-                continue
-            info['reps'].append(name)
-            for k, Hr in enumerate(res if isinstance(res, list) else [res]):
-                err = np.abs(Hr - H).max() if Hr.shape == H.shape else np.inf
-                if not err < TOL * scale:
-                    bad(name + ('' if not k else '[H_bond]'), 'mismatch' + ('' if not first else '@shifted-window'), 'differs from the sum of terms by %.3g (|H|max=%.3g)' % (err, scale))
+        compare(representations(M, n, first, not ref.explicit_string, heavy, op_basis), H, finite, bad, info, const, '@shifted-window' if first else '')
+    if ('H_bond', '') in const and heavy and n - N >= 2:  # the identity component per unit cell needs a second window size
+        ref2 = R.Ref(lat, 0, n - N)
+        for c in calls:
+            ref2.add(c)
+        c2 = R.boundary_residual(R.bonds_dense(M.H_bond, lat.mps_sites(), 0, n - N) - ref2.dense(), ref2.dims[0], ref2.dims[-1])[1]
+        if abs(c2 - const['H_bond', '']) > TOL * scale:
+            bad('H_bond', 'wrong-constant', 'identity component of sum_i H_bond[i] per unit cell is off by %.3g' % abs(c2 - const['H_bond', '']))
     return viol, info
+
+
+def check_model(case):
+    """One predefined model: all representations equal its MPO, hermitian; -> (violations, info, H in the basis
+    of conserve=None) to compare the conservation options of one model with each other."""
+    info = dict(reps=[], nontrivial=True, skipped=None)
+    viol = []
+    name = case['model'].split('.')[1]
+
+    def bad(rep, mode, what):
+        viol.append(('%s:%s:model:%s' % (rep, mode, name), '%s: %s; case=%r' % (rep, what, case)))
+
+    try:
+        with warnings.catch_warnings():
+            warnings.simplefilter('ignore')
+            M = MODELS.build(case)
+    except Exception as e:  # noqa: BLE001
+        bad('model', 'exception:' + type(e).__name__, '%s\n%s' % (e, traceback.format_exc()[-1200:]))
+        return viol, info, None
+    lat = M.lat
+    N, finite = lat.N_sites, lat.bc_MPS == 'finite'
+    dims = [s.dim for s in lat.mps_sites()]
+    n = N if finite else N * max(w for w in (1, 2, 3) if w == 1 or (np.prod(dims) ** w <= 300 and w * N <= 8))
+    reps = representations(M, n, 0, True, not finite or n > 1)
+    reps = dict([('H_MPO', reps.pop('H_MPO'))] + list(reps.items()))
+    H = compare(reps, None, finite, bad, info, {})
+    if H is None:
+        return viol, info, None
+    if np.abs(H - H.conj().T).max() > TOL * max(1.0, np.abs(H).max()):
+        bad('H_MPO', 'not-hermitian', 'antihermitian part %.3g' % np.abs(H - H.conj().T).max())
+    try:
+        if not M.H_MPO.is_hermitian():
+            bad('H_MPO.is_hermitian', 'wrong', 'is_hermitian()=False for a hermitian Hamiltonian')
+    except Exception as e:  # noqa: BLE001
+        bad('H_MPO.is_hermitian', 'exception:' + type(e).__name__, str(e))
+    return viol, info, R.standard_basis(H, [lat.mps_sites()[i % N] for i in range(n)])
+
+
+def model_cases(cls, tier, seed):
+    return dict(MODELS.cases(tier, seed))[cls]
+
+
+def run_models(cases_):
+    """check_model for every case + equality of the cases which differ only in the conserved charges."""
+    out, first = [], {}
+    for case in cases_:
+        try:
+            viol, info, H = check_model(case)
+        except Exception as e:  # noqa: BLE001
+            viol, info, H = [('check:exception:' + type(e).__name__, '%r: %s\n%s' % (case, e, traceback.format_exc()[-1500:]))], dict(reps=[], nontrivial=True, skipped=None), None
+        if H is not None:
+            c0, H0 = first.setdefault(case['same'], (case, H))
+            if H0.shape != H.shape or np.abs(H - H0).max() > TOL * max(1.0, np.abs(H0).max()):
+                viol.append(('conserve:mismatch:model:' + case['model'].split('.')[1],
+                             'the Hamiltonian (basis of conserve=None) differs between %r and %r' % (c0['params'], case['params'])))
+                case = dict(case, other=c0)
+            info['reps'].append('conserve')
+        out.append((case, viol, info))
+    return out
 
 
 # ------------------------------------------------------------------------------------------ runner interface
 
 def run_unit(unit):
-    if unit[0] == 'grid':
-        _, spec, kind, group, tier, seed = unit
-        it = cases(spec, kind, group, tier, seed)
+    def grid():
+        for case in cases(*unit[1:]):
+            try:
+                res, info = check_case(case)
+            except Exception as e:  # noqa: BLE001
+                res, info = [('check:exception:' + type(e).__name__, '%r: %s\n%s' % (case, e, traceback.format_exc()[-1500:]))], dict(reps=[], nontrivial=True, skipped=None)
+            yield case, res, info
     ev = nt = 0
     viol, per_key, outcomes, samples, extra = [], {}, set(), [], {}
-    for case in it:
+    for case, res, info in grid() if unit[0] == 'grid' else run_models(model_cases(*unit[1:])):
         ev += 1
-        try:
-            res, info = check_case(case)
-        except Exception as e:  # noqa: BLE001
-            res, info = [('check:exception:' + type(e).__name__, '%r: %s\n%s' % (case, e, traceback.format_exc()[-1500:]))], dict(reps=[], nontrivial=True, skipped=None)
         nt += bool(info['nontrivial'] and not info['skipped'])
         outcomes.update(info['reps'])
         if info['skipped']:
@@ -486,7 +579,10 @@ def run_unit(unit):
 
 
 def replay(case):
-    res, _ = check_case(case)
+    if 'model' in case:
+        res = run_models(([case['other']] if 'other' in case else []) + [{k: v for k, v in case.items() if k != 'other'}])[-1][1]
+    else:
+        res, _ = check_case(case)
     return dict(evaluations=1, violations=[dict(key=k, what=w, case=case) for k, w in res])
 
 
